@@ -338,6 +338,16 @@ func (m *Manager) AddValidatedV2Blocks(blocks []types.Block, states []consensus.
 			// not a consensus rule, so pre-validation does not cover it
 			return ErrFutureBlock
 		}
+		bid := blocks[i].ID()
+		if known, ok := m.store.State(bid); ok {
+			if index, ok := m.store.BestIndex(known.Index.Height); ok && index.ID == bid {
+				if _, _, ok := m.store.Block(bid); !ok {
+					// already applied to the best chain, but its body has been
+					// pruned; re-adding it would undo the pruning
+					continue
+				}
+			}
+		}
 		m.store.AddBlock(blocks[i], &consensus.V1BlockSupplement{})
 		m.store.AddState(states[i])
 	}
